@@ -157,11 +157,12 @@ Fixpoint exec (fuel : nat) (w : nat) (me : option cref) (n : node) (s : state) :
           match nth_error defs d with
           | None => (s, ORaised, [])
           | Some df =>
-              (* nextcaller = Namespace(caller, callables=ccall(__M_caller)) / try: writer(d()) / finally: nextcaller = None *)
+              (* saved = nextcaller / nextcaller = Namespace(caller, callables=ccall(__M_caller)) / try: writer(d()) /
+                 finally: nextcaller = saved   (fix 98e6214: the slot is put back, not cleared) *)
               let '(s1, o1, t1, v) := call_def (exec f) df (set_next s (Some (CRef body me))) in
               match o1 with
-              | ONormal => (set_next (write s1 w v) None, ONormal, t1)
-              | _ => (set_next s1 None, o1, t1)
+              | ONormal => (set_next (write s1 w v) (nextcaller s), ONormal, t1)
+              | _ => (set_next s1 (nextcaller s), o1, t1)
               end
           end
       | NCallerBody =>
